@@ -295,7 +295,7 @@ impl C18Check {
         let mut positions = vec![];
         collect_positions(ast, &mut vec![], &mut positions);
         for path in positions {
-            for kind in ["parenthesise-operand", "add-constant-side-effect"] {
+            for kind in ["parenthesise-operand", "add-constant-side-effect", "add-side-effect-before", "add-side-effect-holding-a-block", "add-side-effect-before-holding-a-block", "add-side-effect-holding-a-list"] {
                 if !take(50) {
                     continue;
                 }
@@ -368,7 +368,20 @@ fn rewrite_at(n: &Sx, path: &[u8], kind: &str) -> Option<Sx> {
                 _ => Some(Sx::node("Group", None, Some(n.clone()))),
             },
             _ => match n {
-                Sx::Leaf(d, t) if d != "Identifier" || true => Some(Sx::ValNode(d.clone(), t.clone(), None, Some(Box::new(Sx::node("SideEffect", None, Some(Sx::leaf("Number", "1"))))))),
+                Sx::Leaf(d, t) => {
+                    // bodies without an observable effect: a constant, a constant followed by a block of its own, a list
+                    let block = |body: Sx| Box::new(Sx::node("SideEffect", None, Some(body)));
+                    let one = Sx::leaf("Number", "1");
+                    let nested = Sx::ValNode("Number".into(), "2".into(), None, Some(block(Sx::leaf("Number", "3"))));
+                    let list = Sx::node("List", Some(Sx::leaf("Number", "8")), Some(Sx::leaf("Number", "9")));
+                    Some(match kind {
+                        "add-constant-side-effect" => Sx::ValNode(d.clone(), t.clone(), None, Some(block(one))),
+                        "add-side-effect-before" => Sx::ValNode(d.clone(), t.clone(), Some(block(one)), None),
+                        "add-side-effect-holding-a-block" => Sx::ValNode(d.clone(), t.clone(), None, Some(block(nested))),
+                        "add-side-effect-before-holding-a-block" => Sx::ValNode(d.clone(), t.clone(), Some(block(nested)), None),
+                        _ => Sx::ValNode(d.clone(), t.clone(), None, Some(block(list))),
+                    })
+                }
                 _ => None,
             },
         };
@@ -414,7 +427,7 @@ impl Check for C18Check {
     }
     fn rule(&self) -> String {
         "Programs: every core-language AST with at most k nodes (k=3 quick, 4 thorough; the C01 enumerator) printed with single spaces, plus random larger ASTs. For each accepted program every single rewrite is applied at every position (random programs: a tape-chosen subset of positions): \
-         each gap between two tokens is replaced by no space / one space / several spaces / a tab / a line break / an annotation (spaced, or glued to either neighbour) / a comment line (inside a list-space or blank-line gap: widening with blanks and tabs, an annotation before the operator's white space, after it, or after it and glued to the next token); each blank line additionally rewritten to hold a space, a tab, or tabs and spaces; trailing or leading white space, annotation or comment line; parentheses around one complete operand; a side-effect block with a constant body after one value. \
+         each gap between two tokens is replaced by no space / one space / several spaces / a tab / a line break / an annotation (spaced, or glued to either neighbour) / a comment line (inside a list-space or blank-line gap: widening with blanks and tabs, an annotation before the operator's white space, after it, or after it and glued to the next token); each blank line additionally rewritten to hold a space, a tab, or tabs and spaces; trailing or leading white space, annotation or comment line; parentheses around one complete operand; a side-effect block without an observable effect after or before one value (body: a constant, a constant with a block of its own, a list). \
          A rewrite is applicable only if the lexer still produces the same significant tokens (otherwise counted, not judged) and is meaning-preserving by construction (not applied to a property name after `.`, to a same-kind list item, to an arm of an else chain, or around separators). \
          Oracle (metamorphic): the parse tree modulo Group nodes and side-effect blocks is unchanged and the final value on both data implementations and two inputs is unchanged. \
          Non-trivial = a gap rewrite between tokens of different classes; distinct = distinct (program, position, rewrite)."
